@@ -231,6 +231,32 @@ def run_case(case):
             "sample": {"features": case["model"].get("features"), "aborts": case["aborts"],
                        "enumerate": case.get("enumerate", False), "log": log[:8]}}
 
+def directed_cases(tier):
+    """The history that defeats a stale "inputs unchanged" decision: good build, content
+    edit of an imported source, abort inside the re-run step after it modified its
+    workspace, the user reverts the edit, fault-free build."""
+    import random
+    rng = random.Random(505)
+    out = []
+    want = 24 if tier == "thorough" else 6
+    kinds = ["script-exit", "script-kill", "script-kill-only"]
+    tries = 0
+    while len(out) < want and tries < 400:
+        tries += 1
+        model = projgen.gen_valid_project(rng, features={"import", "vars", "diamond"} | set(rng.sample(
+            ["tools", "classes", "depenv", "provideVars", "checkoutscript"], rng.randint(0, 2))))
+        if not model["sources"]:
+            continue
+        e = projgen.gen_edit(rng, model, [model], ["src_modify"])
+        if e is None:
+            continue
+        a = {"kind": kinds[len(out) % len(kinds)], "jobs": 1, "sched_seed": rng.getrandbits(32),
+             "match": ["/build/", "/build/", "/dist/"][(len(out) // len(kinds)) % 3], "at": rng.randint(3, 9)}
+        out.append({"model": model, "pre": [{"edit": e}], "post": [{"edit": {"kind": "revert", "to": 0}}],
+                    "good_first": True, "aborts": [a], "final_jobs": 1, "final_seed": rng.getrandbits(32),
+                    "directed": "content edit, abort in the re-run step, revert"})
+    return out
+
 def fixup(case):
     if not case["aborts"]:
         return None
